@@ -8,7 +8,7 @@ COQ_IMPORTS = 'From Coq Require Import NArith.\nFrom PB Require Import model.M_e
 COQ_PRELUDE = ''
 PER_FILE = 400
 CASE_TIMEOUT = 5
-RULE = ('trees = nests of dict / Dict / dictattr over string keys (some containing dots, incl. the colliding {v1.0: .., v1: {0: ..}}; paths are always tuples / lists) with leaves None / ints / strings / lists, depth <= 4. flat cases: tree_items, '
+RULE = ('trees = nests of dict / Dict / dictattr over string keys (plain, starting with an underscore (_x, _, __init__, _id, _pk), holding % / space / slash, some containing dots, incl. the colliding {v1.0: .., v1: {0: ..}}; paths are always tuples / lists) with leaves None / ints / strings / lists, depth <= 4. flat cases: tree_items, '
         'tree_keys, tree_values, tree_getitem on every listed path, items_to_tree(tree_items(t)). update cases: tree_update(t, u, ignore) or '
         'Dict + dict with canonical deep snapshots (class, key order, leaves of every branch) of BOTH operands taken before and after the call; '
         'EVERY pair of the 36 dict-rooted trees over keys {a,b} of depth <= 2 (empty branches included), random pairs where u is derived from t '
@@ -32,7 +32,7 @@ EXHAUSTIVE = {'quick': False, 'thorough': False}
 
 CLS = {'dict': 0, 'Dict': 1, 'dictattr': 2}
 CLSN = ['dict', 'Dict', 'dictattr']
-KEYS = ['a', 'b', 'c', 'd', 'x', 'v1.0', 'v1', '0', 'a.b', '.', '']
+KEYS = ['a', 'b', 'c', 'd', 'x', 'v1.0', 'v1', '0', 'a.b', '.', '', '_x', '_', '__init__', '_id', '_pk', 'a_b', '%p', 'a/b', ' ', 'A']
 
 def Nd(kids, cls='dict'): return ['N', cls, [[k, v] for k, v in kids]]
 def Lf(v): return ['L', v]
@@ -375,8 +375,10 @@ def derive(rng, t, d):
         kids = [[rng.choice(KEYS), Lf(rand_leaf(rng))]]
     return ['N', rng.choice(CLSN), kids]
 
-LITS = ['markets', 'weight', 'k', 'm', 'v1.0', 'a.b']
+LITS = ['markets', 'weight', 'k', 'm', 'v1.0', 'a.b', '_meta', '_']
 VALS = ['TY', 'ES', 'v1.0', 'p', 'q']
+KVALS = ['TY', 'ES', 'v1.0', '_TY', '_', '__init__', '_id', '_pk', 'a_b', '%p', 'a/b', ' ']     # wildcard values used as keys
+LEAFVALS = [1, 2, 'TY', None, [1, 2], 5, 'p', '_pk', '_']
 def rand_table(rng):
     nseg = rng.choice([2, 3, 3, 4, 4, 5, 6])
     nw = rng.randrange(1, min(4, nseg) + 1)
@@ -393,7 +395,7 @@ def rand_table(rng):
         r = []
         for i, p in enumerate(pat):
             if p.startswith('%'):
-                r.append([p[1:], rng.choice(VALS[:3]) if i < nseg - 1 else rng.choice([1, 2, 'TY', None, [1, 2], 5, 'p'])])
+                r.append([p[1:], rng.choice(KVALS if rng.random() < 0.6 else KVALS[:3]) if i < nseg - 1 else rng.choice(LEAFVALS)])
         path = tuple(v for (n, v), p in zip(r, [p for p in pat if p.startswith('%')]) if ('%' + n) != pat[-1])
         if unique and path in seen: continue
         seen.add(path); rng.shuffle(r); rows.append(r)
@@ -408,7 +410,19 @@ def dotted_seeds():
     out += [{'kind': 'update', 't': t1, 'u': Nd([('v1.0', Nd([('x', Lf(5))]))])}, {'kind': 'update', 't': t1, 'u': Nd([('v1', Nd([('0', Nd([('y', Lf(5))]))]))])},
             {'kind': 'update', 't': t2, 'u': Nd([('a.b', Nd([('c', Lf(3))])), ('a', Nd([('b', Lf(None))]))]), 'via': 'add'},
             {'kind': 'table', 'pattern': ['v1.0', '%m', 'a.b', '%w'], 'rows': [[['m', 'v1.0'], ['w', 1]], [['m', 'v1'], ['w', 2]]]}]
+    # keys starting with an underscore (and other unusual names) are ordinary keys everywhere
+    tu = Nd([('_id', Lf(1)), ('_', Nd([('__init__', Lf(2)), ('_pk', Nd([('x', Lf(None))], 'Dict'))])), ('a_b', Nd([('%p', Lf('q')), ('a/b', Lf([1]))]))], 'dictattr')
+    out += [{'kind': 'flat', 't': tu}, {'kind': 'update', 't': tu, 'u': Nd([('_', Nd([('_pk', Nd([('_x', Lf(3))])), ('__init__', Lf(None))])), ('_new', Lf(0))])},
+            {'kind': 'update', 't': tu, 'u': tu, 'same': True, 'via': 'tree_update'},
+            {'kind': 'setitem', 't': tu, 'path': ['_', '_pk', '_y'], 'value': 7, 'spell': 'str'}]
+    out += underscore_tables()
     return out
+
+def underscore_tables():
+    return [{'kind': 'table', 'pattern': ['markets', '%m', 'weight', '%w'], 'rows': [[['m', '_TY'], ['w', 1]], [['m', 'ES'], ['w', 2]]]},
+            {'kind': 'table', 'pattern': ['%a', '%b', '%v'], 'rows': [[['a', '_'], ['b', '__init__'], ['v', 1]], [['a', 'x'], ['b', '_pk'], ['v', 2]], [['a', '_'], ['b', 'y'], ['v', '_z']]]},
+            {'kind': 'table', 'pattern': ['%a', 'k', '%b', '%c', '%v'], 'rows': [[['a', 'p'], ['b', '_id'], ['c', '_'], ['v', None]], [['a', '_id'], ['b', 'q'], ['c', 'r'], ['v', 3]]]},
+            {'kind': 'table', 'pattern': ['_meta', '%a', '%v'], 'rows': [[['a', '_only'], ['v', 1]]], 'rows_as': 'dict'}]
 
 def big_cases():
     """sizes > 100: a 150-key branch, a depth-12 chain, both flattened, updated and addressed; a 150-row table"""
